@@ -125,27 +125,35 @@ Agree(c, v) == AgreesWith(Violated(c), v)
 \* @type: ($case, Str) => Bool;
 AgreeTransit(c, v) == AgreesWith(ViolatedTransit(c), v)
 
-(* ----- the same judgement without sets (cheap for the SMT encoding) ----- *)
-(* TLC checks on the whole lattice that AgreeB = Agree for every verdict.   *)
-\* @type: ($case) => Bool;
-AnyOutgoingViolated(c) == BelowMin(c) \/ AboveMax(c) \/ Bandwidth(c) \/ ExpiryTooSoon(c) \/ ExpiryTooFar(c)
-\* @type: ($case) => Bool;
-AnyViolated(c) == FeeInsufficient(c) \/ AnyOutgoingViolated(c) \/ IncorrectCltvExpiry(c) \/ CltvDeltaTooFar(c)
-\* the rule(s) named by verdict v, restricted to forward / transit rules, one of them violated
-\* @type: ($case, Str, Bool) => Bool;
-NamedViolated(c, v, fwd) ==
-  IF v = "FeeInsufficient" THEN fwd /\ FeeInsufficient(c)
-  ELSE IF v = "AmountBelowMinimum" THEN BelowMin(c)
-  ELSE IF v = "HtlcExceedsMax" THEN AboveMax(c)
-  ELSE IF v = "InsufficientBalance" THEN Bandwidth(c)
-  ELSE IF v = "ExpiryTooSoon" THEN ExpiryTooSoon(c)
-  ELSE IF v = "ExpiryTooFar" THEN ExpiryTooFar(c) \/ (fwd /\ CltvDeltaTooFar(c))
-  ELSE IF v = "IncorrectCltvExpiry" THEN fwd /\ IncorrectCltvExpiry(c)
+(* ----- the same judgement without sets and records (cheap for the SMT encoding) ----- *)
+(* Scalar arguments in the order in, out, inExp, outExp, height, base, rate, minH, maxH,   *)
+(* delta, rdelta, maxCltv, ibase, irate, bw.  TLC checks on the whole lattice that         *)
+(* AgreeB = Agree and AgreeTransitB = AgreeTransit for every verdict (BoolFormIsSetForm).  *)
+\* @type: (Int, Int, Int, Int, Int, Int) => Bool;
+FeeInsufficientS(in, out, base, rate, ibase, irate) ==
+  in < out \/ in - out < OutFeeOf(out, base, rate) + InFeeOf(out + OutFeeOf(out, base, rate), ibase, irate)
+\* verdict v names a violated rule; fwd = FALSE restricts to the outgoing-side rules (transit)
+\* @type: (Int, Int, Int, Int, Int, Int, Int, Int, Int, Int, Int, Int, Int, Int, Int, Str, Bool) => Bool;
+AgreeS(in, out, inExp, outExp, height, base, rate, minH, maxH, delta, rdelta, maxCltv, ibase, irate, bw, v, fwd) ==
+  IF v = "ok" THEN
+    /\ out >= minH /\ (maxH = 0 \/ out <= maxH) /\ out <= bw
+    /\ outExp > height + rdelta /\ outExp <= height + maxCltv
+    /\ fwd => /\ ~FeeInsufficientS(in, out, base, rate, ibase, irate)
+              /\ inExp - outExp >= delta /\ inExp - outExp <= maxCltv
+  ELSE IF v = "FeeInsufficient" THEN fwd /\ FeeInsufficientS(in, out, base, rate, ibase, irate)
+  ELSE IF v = "AmountBelowMinimum" THEN out < minH
+  ELSE IF v = "HtlcExceedsMax" THEN maxH # 0 /\ out > maxH
+  ELSE IF v = "InsufficientBalance" THEN out > bw
+  ELSE IF v = "ExpiryTooSoon" THEN outExp <= height + rdelta
+  ELSE IF v = "ExpiryTooFar" THEN outExp > height + maxCltv \/ (fwd /\ inExp - outExp > maxCltv)
+  ELSE IF v = "IncorrectCltvExpiry" THEN fwd /\ inExp - outExp < delta
   ELSE FALSE
 \* @type: ($case, Str) => Bool;
-AgreeB(c, v) == IF v = "ok" THEN ~AnyViolated(c) ELSE NamedViolated(c, v, TRUE)
+AgreeB(c, v) == AgreeS(c.in, c.out, c.inExp, c.outExp, c.height, c.base, c.rate, c.minH, c.maxH, c.delta,
+                       c.rdelta, c.maxCltv, c.ibase, c.irate, c.bw, v, TRUE)
 \* @type: ($case, Str) => Bool;
-AgreeTransitB(c, v) == IF v = "ok" THEN ~AnyOutgoingViolated(c) ELSE NamedViolated(c, v, FALSE)
+AgreeTransitB(c, v) == AgreeS(c.in, c.out, c.inExp, c.outExp, c.height, c.base, c.rate, c.minH, c.maxH, c.delta,
+                              c.rdelta, c.maxCltv, c.ibase, c.irate, c.bw, v, FALSE)
 
 (* ----- division-free characterisation of the two fee terms ------------- *)
 (* Used as a check of the operators above (TLC on the lattice, Apalache    *)
